@@ -65,6 +65,12 @@ claim("C03",
       GEN, "DESIGN.md 5/C03-C04")
 
 
+claim("C02",
+      "GitRepo.tla models the repository (commit DAG, branches, HEAD, lightweight/annotated tags) with one action per git operation and states declaratively what zerv must report (nearest validly tagged ancestor-or-self, highest version on it under the spec's own order modules, distance, dirty, branch, hashes, times, 'no version tags'). TLC enumerates every repository reachable within the bounds and emits a witness operation sequence per state; the harness replays it with the real git and compares `zerv version -C` under three input formats and five work-tree kinds with the acceptable answers. Random sessions (up to 12 commits, criss-cross merges, retagging) are validated by Trace_GitRepo, which replays every operation through the spec's actions and judges an observation after each.",
+      "Exhaustive over <= 3 commits / <= 4 operations / 4 tag names (quick), <= 4 commits / <= 6 operations / 5 tag names sampled (thorough); random sessions beyond. Real git 2.39, isolated configuration, commit-time policies increasing / decreasing / constant.",
+      GEN, "DESIGN.md 5/C02")
+
+
 def main():
     m = {
         "version": 1,
